@@ -66,16 +66,18 @@ class Projection(Harness):
         M = sym_array(ctx, 'M', (m, 1), kind='complex')
         P = pj.Projection(A)
         Q, oQ = P.Q, P.oQ
-        prove_zero(ctx, 'hermitian', Q - C.herm(Q), fallback_exact=False)
-        prove_zero(ctx, 'PA=A', np.dot(Q, A) - A, fallback_exact=False)
-        prove_zero(ctx, 'idempotent', np.dot(Q, Q) - Q, fallback_exact=False)
+        big = dict(max_goal_terms=500000, inst_budget_s=400.0) \
+            if m * n >= 8 else {}
+        prove_zero(ctx, 'hermitian', Q - C.herm(Q), fallback_exact=False, **big)
+        prove_zero(ctx, 'PA=A', np.dot(Q, A) - A, fallback_exact=False, **big)
+        prove_zero(ctx, 'idempotent', np.dot(Q, Q) - Q, fallback_exact=False, **big)
         prove_zero(ctx, 'complementary', Q + oQ - C.eye(m),
-                   fallback_exact=False)
+                   fallback_exact=False, **big)
         prove_zero(ctx, 'project+oProject=id',
-                   P.project(M) + P.oProject(M) - M, fallback_exact=False)
+                   P.project(M) + P.oProject(M) - M, fallback_exact=False, **big)
         prove_zero(ctx, 'reflect-twice', P.reflect(P.reflect(M)) - M,
-                   fallback_exact=False)
-        prove_zero(ctx, 'oProject(A)=0', P.oProject(A), fallback_exact=False)
+                   fallback_exact=False, **big)
+        prove_zero(ctx, 'oProject(A)=0', P.oProject(A), fallback_exact=False, **big)
 
     def _check(self, inp):
         pj = repo_module(PROJ)
@@ -129,17 +131,19 @@ class Chordal(Harness):
     modules = (PROJ, METR)
     functions = (METR + ':calc_chordal_distance_2',
                  PROJ + ':calcProjectionMatrix')
-    bounds = 'A complex 2x1, 3x1 (quick); 3x2 with B = A T, T 2x2 (thorough)'
+    bounds = 'A complex 2x1, 3x1 (quick); 4x1 (thorough); B = A t, t != 0'
     assumptions = ('full column rank', 'T invertible')
     div_mode = 'assume'
     outside = ('calc_principal_angles / calc_chordal_distance via QR+SVD+'
                'arccos: agreement of the three routines is spectral, not '
-               'algebraic', 'invariance under a common unitary rotation')
+               'algebraic', 'invariance under a common unitary rotation',
+               'two-dimensional subspaces with a 2x2 change of basis (3x2 was '
+               'tried: not decided by the linearised prover; concrete only)')
 
     def configs(self, tier):
         s = [(2, 1), (3, 1)]
         if tier != 'quick':
-            s += [(3, 2)]
+            s += [(4, 1)]
         return [dict(m=m, n=n) for m, n in s]
 
     def sym(self, ctx, cfg):
@@ -210,14 +214,18 @@ class UpdateInv(Harness):
     name = 'update-inv'
     modules = (MISC, )
     functions = (MISC + ':update_inv_sum_diag', )
-    bounds = 'real A 2x2 (quick), 3x3 (thorough); symbolic diagonal'
+    bounds = 'real A 2x2; symbolic diagonal'
+    outside = ('3x3 and larger (concrete runs only)', )
     assumptions = ('A and every intermediate rank-one update non-singular '
                    '(1 + d_i x_ii != 0)', )
     div_mode = 'assume'
     unit_wall_s = {'quick': 240, 'thorough': 1500}
 
     def configs(self, tier):
-        return [dict(n=2)] + ([dict(n=3)] if tier != 'quick' else [])
+        # 3x3 was tried: the cleared polynomial identity is not decided by
+        # the linearised prover within its caps (unknown), so it is outside
+        # the symbolic claim and only run concretely
+        return [dict(n=2)]
 
     def sym(self, ctx, cfg):
         misc = repo_module(MISC)
@@ -259,13 +267,15 @@ class UpdateInv(Harness):
                     detail=str(inp)[:300])
 
     def concrete(self, cfg, rng):
-        n = cfg['n']
-        for _ in range(5):
-            A = np.array([[rng.gauss(0, 1) for _ in range(n)]
-                          for _ in range(n)]) + 3 * np.eye(n)
-            assert not self._check((A, np.array(
-                [rng.uniform(0.1, 2) for _ in range(n)])))
-        return 5
+        k = 0
+        for n in (cfg['n'], 3, 5):
+            for _ in range(5):
+                A = np.array([[rng.gauss(0, 1) for _ in range(n)]
+                              for _ in range(n)]) + 3 * np.eye(n)
+                assert not self._check((A, np.array(
+                    [rng.uniform(0.1, 2) for _ in range(n)])))
+                k += 1
+        return k
 
 
 # ---------------------------------------------------------------------------
